@@ -23,6 +23,7 @@ import (
 //	txbig <codelen> <fill> <nonce>      transaction with a code of codelen bytes: "len=<n> ok hash=<h>|err" (MAX_TX_SIZE)
 //	hdr <B> <keys>                      Header.Deserialization (+ the streaming Deserialize must agree): "ok <V> hash=<h> rest=<n>"
 //	hdrprop <B> <alttail> <keys>        property of a valid header encoding (hash ignores bookkeepers / sigData)
+//	attr <B> <keys>                     TxAttribute.Deserialize (streaming): "ok <usage>,<data> rest=<n> canon|noncanon"
 //	blk <B> <keys>                      Block.Deserialization: "ok <hdrV> hash=<h> txs=[h1;..] rest=<n>" | "err"
 //	blkbad <dup|root> <B> <keys>        a block that repeats a transaction / whose root does not match: must be refused
 //
@@ -372,6 +373,24 @@ func (f *ledgerFam) Exec(r *hx.Run, op []string) string {
 		return f.hdrOp(r, hx.UnHex(op[1]))
 	case "hdrprop":
 		return f.hdrProp(r, hx.UnHex(op[1]), hx.UnHex(op[2]))
+	case "attr":
+		raw := hx.UnHex(op[1])
+		res, pm := guarded(func() string {
+			var a types.TxAttribute
+			rd := bytes.NewReader(raw)
+			if err := a.Deserialize(rd); err != nil {
+				return "err"
+			}
+			canon := "noncanon"
+			if bytes.Equal(a.ToArray(), raw[:len(raw)-rd.Len()]) {
+				canon = "canon"
+			}
+			return fmt.Sprintf("ok %d,%s rest=%d %s", byte(a.Usage), hx.Hex(a.Data), rd.Len(), canon)
+		})
+		if res == "panic" {
+			r.Viol("C02:decoder-panic:TxAttribute:"+panicSite(pm), "TxAttribute.Deserialize panics: "+pm)
+		}
+		return res
 	case "blk":
 		return f.blkOp(r, hx.UnHex(op[1]), "")
 	case "blkbad":
@@ -625,6 +644,20 @@ func (f *ledgerFam) Gen(r *hx.Run) {
 		codeLen := total - len(bigTx(0, 0, 0)) + 1 - 5
 		r.Do(fmt.Sprintf("txbig %d %02x %d", codeLen, byte(r.Rng.U64()), r.Rng.Intn(1000)))
 		r.Nontrivial(fmt.Sprintf("tx-size/%d", total))
+	}
+	// transaction attributes (streaming codec; transactions themselves must carry none)
+	for i := 0; i < r.Pick(200, 5000); i++ {
+		newCase("attr")
+		a := types.NewTxAttribute([]types.TransactionAttributeUsage{types.Nonce, types.Script, types.DescriptionUrl, types.Description}[r.Rng.Intn(4)], r.Rng.Bytes(genLen(r)))
+		raw := a.ToArray()
+		switch r.Rng.Intn(4) {
+		case 0:
+			raw = mutate(r, raw)
+		case 1:
+			raw[0] = byte(r.Rng.U64())
+		}
+		out := r.Do(fmt.Sprintf("attr %s keys=-", hx.Hex(raw)))
+		r.Nontrivial(fmt.Sprintf("attr/%s/%d", outClass(out), lenBucket(len(raw))))
 	}
 	// 4. headers
 	nh := r.Pick(300, 10000)
